@@ -211,6 +211,20 @@ func craftedInputs() [][]byte {
 	out = append(out, hspecHx("M x04 RMap x01 a H x01 b Q x91 Z Z"))
 	out = append(out, hspecHx("C x05 HoldR x93 x01 t x01 m x01 n x60 N H x01 a H x01 b Q x92 Z Z x90"))
 	out = append(out, hspecHx("C x05 HoldR x93 x01 t x01 m x01 n x60 x57 x57 Q x91 Z Z N x90"))
+	// list type names the type map does not know, made of thousands of '[' in front of a name it does know
+	for _, depth := range []int{300, 5000, 20000, 60000} {
+		for _, root := range []string{"int32", "zoo.Inner", "Inner", "string"} {
+			name := strings.Repeat("[", depth) + root
+			b := append([]byte{'V', 'S', byte(len(name) >> 8), byte(len(name))}, name...)
+			out = append(out, append(b, 0x91, 0x90))
+			if depth == 5000 {
+				f := hspecHx("C x04 SlSl x91 x01 v x60 x55")
+				f = append(f, 'S', byte(len(name)>>8), byte(len(name)))
+				f = append(f, name...)
+				out = append(out, append(f, 0x90, 'Z'))
+			}
+		}
+	}
 	return out
 }
 
